@@ -49,6 +49,20 @@ def source(extra):
 
 def _run_task(task):
     t0 = time.time()
+    if task.get('isolate'):
+        import pickle
+        try:
+            p = subprocess.run([sys.executable, '-m', 'pyvc.isolated'], input=pickle.dumps(task), capture_output=True, timeout=3600,
+                               env=dict(os.environ, PYTHONPATH=f'{REPO}:{ROOT}'), cwd=ROOT)
+            blob = p.stdout.split(b'\n==PYVC-RESULT==\n', 1)
+            if len(blob) == 2:
+                out = pickle.loads(blob[1])
+                out['wall_s'] = round(time.time() - t0, 3)
+                return out
+            return {'task': task.get('name', task['fn']), 'error': 'crash: isolated task gave no result: ' + p.stderr.decode(errors='replace')[-800:],
+                    'results': [], 'wall_s': round(time.time() - t0, 3)}
+        except Exception:   # noqa
+            return {'task': task.get('name', task['fn']), 'error': 'crash: ' + traceback.format_exc(), 'results': [], 'wall_s': round(time.time() - t0, 3)}
     try:
         mod = __import__(task['module'], fromlist=['x'])
         out = getattr(mod, task['fn'])(task)
